@@ -27,6 +27,17 @@ add("C05", "exploration",
     "items. Lengths above the bound and validators with side effects are sampled/not covered.",
     "DESIGN.md section 4 C05")
 
+add("C02", "exploration",
+    "reference change-criterion monitor over recorded handler logs (all three notification mechanisms), random histories",
+    "Random assignment/read histories on one attribute over 19 trait kinds x 3 comparison modes x handler mixes "
+    "(static arities 0-4, _anytrait_changed, on_trait_change function/bound method, two observers) x raising "
+    "handler x exception type; after every operation each mechanism's call log is compared with the reference "
+    "criterion computed from the values readable before/after (count, order, identity of old/new), and the "
+    "exception channels are inspected. Held on the histories observed.",
+    "Trusted: the 10-line reference criterion (mode none/identity/equality, events), identity comparison, "
+    "value pools without ==/!= inconsistency; del and dispatch='ui'/'new' are not in this check's alphabet.",
+    "DESIGN.md section 4 C02")
+
 NOT_YET = {}
 
 
